@@ -43,6 +43,31 @@ func allReachable(n int, edges uint) bool {
 	return true
 }
 
+func bitsSet(x uint) int {
+	c := 0
+	for ; x != 0; x &= x - 1 {
+		c++
+	}
+	return c
+}
+
+// roots counts providers without requirements.
+func roots(n int, edges uint) int {
+	c := 0
+	for k := 0; k < n; k++ {
+		has := false
+		for j := 0; j < k; j++ {
+			if edges&(1<<edgeBit(j, k)) != 0 {
+				has = true
+			}
+		}
+		if !has {
+			c++
+		}
+	}
+	return c
+}
+
 func maxInDegree(n int, edges uint) int {
 	m := 0
 	for k := 0; k < n; k++ {
@@ -415,49 +440,70 @@ func Universe(tier string) []*Decl {
 	thorough := tier == "thorough"
 
 	// Block A: every DAG on n providers x every Async subset x fallible choices.
-	maxN, fmode := 3, "singles"
+	maxN := 3
 	if thorough {
-		maxN, fmode = 4, "pairs"
+		maxN = 4
 	}
 	for n := 1; n <= maxN; n++ {
 		for e := uint(0); e < 1<<numEdges(n); e++ {
 			for a := uint(0); a < 1<<n; a++ {
-				for _, f := range fallibleChoices(n, fmode) {
+				fm := "none+all"
+				if thorough || a != 0 {
+					fm = "singles"
+				}
+				for _, f := range fallibleChoices(n, fm) {
 					add(Base(n, e, a, f), "")
 				}
 			}
 		}
 	}
-	// Block B: one size up, shapes in which every provider is needed (in-degree <= 3) x every Async subset.
-	nB, fB := 4, "none"
+	// Block B: one size up, shapes in which every provider is needed (in-degree <= 3) x every Async subset
+	// x {no fallible, all fallible}.
+	nB := 4
 	if thorough {
-		nB, fB = 5, "none+all"
+		nB = 5
 	}
 	for e := uint(0); e < 1<<numEdges(nB); e++ {
 		if !allReachable(nB, e) || maxInDegree(nB, e) > 3 {
 			continue
 		}
 		for a := uint(0); a < 1<<nB; a++ {
-			for _, f := range fallibleChoices(nB, fB) {
+			for _, f := range fallibleChoices(nB, "none+all") {
 				add(Base(nB, e, a, f), "")
 			}
 		}
 	}
-	if !thorough {
-		// quick: all-fallible for n=4 shapes with every provider async or none async
-		for e := uint(0); e < 1<<numEdges(4); e++ {
-			if !allReachable(4, e) {
+	// Block E: wide shapes (at least three input-free roots, every provider needed), the ones that
+	// make the injector start several goroutines: n=5 (quick) and n=5,6 (thorough).
+	wide := func(n int, asyncs []uint, fmodes []uint) {
+		for e := uint(0); e < 1<<numEdges(n); e++ {
+			if !allReachable(n, e) || roots(n, e) < 3 || maxInDegree(n, e) > 4 {
 				continue
 			}
-			for _, a := range []uint{0b0011, 0b0111, 0b1111, 0b0101} {
-				add(Base(4, e, a, 0b1111), "")
+			for _, a := range asyncs {
+				for _, f := range fmodes {
+					add(Base(n, e, a, f), "wide")
+				}
 			}
 		}
 	}
+	if !thorough {
+		var as []uint
+		for a := uint(0); a < 1<<5; a++ {
+			if bitsSet(a&0b111) >= 2 { // at least two of the first three roots async
+				as = append(as, a)
+			}
+		}
+		wide(5, as, []uint{0})
+		wide(5, []uint{0b11111, 0b00111, 0b10111, 0b01111}, []uint{0b11111, 0b00001, 0b01000})
+	} else {
+		wide(5, []uint{0b11111, 0b00111, 0b10111, 0b01111, 0b00011, 0b00110}, []uint{0, 0b11111, 0b00001, 0b01000})
+		wide(6, []uint{0b111111, 0b000111, 0b101011}, []uint{0, 0b111111})
+	}
 	// Block C: feature toggles at every provider position of every all-needed shape.
-	maxV, fV := 3, []string{"none"}
+	maxV := 3
 	if thorough {
-		maxV, fV = 4, []string{"none+all"}
+		maxV = 4
 	}
 	var basesC []*Decl
 	for n := 1; n <= maxV; n++ {
@@ -466,16 +512,27 @@ func Universe(tier string) []*Decl {
 				continue
 			}
 			for a := uint(0); a < 1<<n; a++ {
-				for _, f := range fallibleChoices(n, fV[0]) {
-					basesC = append(basesC, Base(n, e, a, f))
+				if n == 4 && bitsSet(a)%2 == 1 && a != 0b0111 {
+					continue // thorough, n=4: half of the Async subsets
 				}
-				if !thorough && n == 3 {
-					basesC = append(basesC, Base(n, e, a, 0b111))
+				basesC = append(basesC, Base(n, e, a, 0))
+				all := uint(1)<<n - 1
+				if n >= 2 && (a == 0 || a == all || a == all>>1) {
+					basesC = append(basesC, Base(n, e, a, all))
 				}
 			}
 		}
 	}
-	for _, b := range basesC {
+	// wide n=4 shapes (three roots -> combiner; root -> two -> combiner) so that toggles meet goroutines
+	var wideC []*Decl
+	for _, e := range []uint{1<<edgeBit(0, 3) | 1<<edgeBit(1, 3) | 1<<edgeBit(2, 3), 1<<edgeBit(0, 1) | 1<<edgeBit(0, 2) | 1<<edgeBit(1, 3) | 1<<edgeBit(2, 3)} {
+		for _, a := range []uint{0b1111, 0b0111, 0b0110} {
+			for _, f := range []uint{0, 0b1111} {
+				wideC = append(wideC, Base(4, e, a, f))
+			}
+		}
+	}
+	for _, b := range append(append([]*Decl(nil), basesC...), wideC...) {
 		for _, v := range Variants {
 			for p := range b.Provs {
 				add(v.Apply(b, p), fmt.Sprintf("%s@%d", v.Name, p))
@@ -485,7 +542,7 @@ func Universe(tier string) []*Decl {
 	if thorough {
 		// two toggles on n<=3 shapes
 		for _, b := range basesC {
-			if len(b.Provs) > 3 {
+			if len(b.Provs) > 3 || b.Provs[0].Fallible {
 				continue
 			}
 			for i, v1 := range Variants {
